@@ -72,12 +72,12 @@ func TestJudgeBodyOracle(t *testing.T) {
 	ok1.Result = ""
 	notif := mk("notif", "", "")
 	type tc struct {
-		name    string
-		batch   bool
-		elems   []elem
-		reply   string
-		ran     int64
-		want    string // "" = must be silent
+		name  string
+		batch bool
+		elems []elem
+		reply string
+		ran   int64
+		want  string // "" = must be silent
 	}
 	res7 := `{"jsonrpc":"2.0","id":7,"result":42}`
 	cases := []tc{
